@@ -174,7 +174,8 @@ CHECKS["C18"] = dict(
          "(day, column), the real TradingEnvXY is run with none / z-score / power transformers, and every observation is compared "
          "with the rows of the published table env.X selected by the model, every quote and rate with the given tables; "
          "further instantiations: episodes in later folds with long strided windows, two exchange calendars in one process, "
-         "and intraday tables (index numbers are ranks of stamps: prices on the hour, features 30 s later inside a 60 s "
+         "the windowed State on its own (StateWindow.tla, every path of 6 operations replayed on a real State), and intraday tables "
+         "(index numbers are ranks of stamps: prices on the hour, features 30 s later inside a 60 s "
          "latency).",
     design="5 C18", technique="TLA+ spec of the index logic model-checked with TLC; every configuration replayed into the real "
                               "TradingEnvXY", note="Trusted base: TLC, harness, pandas_market_calendars for the holiday dates; the "
